@@ -13,7 +13,7 @@ use similari::track::{
     TrackAttributesUpdate, TrackStatus,
 };
 use std::collections::BTreeMap;
-use std::sync::atomic::{AtomicBool, AtomicI64, AtomicU32, AtomicU64, Ordering::SeqCst};
+use std::sync::atomic::{AtomicBool, AtomicI64, AtomicU64, Ordering::SeqCst};
 use std::sync::{Arc, Mutex};
 
 pub const POISON_MOD: u32 = 100;
@@ -35,7 +35,7 @@ pub struct Env {
     pub counter: AtomicI64,
     pub fired: AtomicU64,
     pub calls: [AtomicU64; 3],
-    pub last_metric_state: AtomicU32,
+    pub last_metric_state: AtomicU64,
 }
 
 #[derive(Clone, Copy, Debug, PartialEq)]
@@ -57,7 +57,7 @@ impl Env {
             counter: AtomicI64::new(0),
             fired: AtomicU64::new(0),
             calls: [AtomicU64::new(0), AtomicU64::new(0), AtomicU64::new(0)],
-            last_metric_state: AtomicU32::new(0),
+            last_metric_state: AtomicU64::new(0),
         })
     }
     /// arm "fail the n-th callback invocation from now" (n counted from 0)
@@ -230,8 +230,31 @@ impl TrackAttributes<SimAttrs, SimObs> for SimAttrs {
 
 #[derive(Clone, Debug)]
 pub struct SimMetric {
-    pub opt_calls: u32,
+    /// Metric state: per feature class a digest of the observation list the metric
+    /// last optimised for that class. It changes with every successful optimise that
+    /// changes a class, is idempotent, and independent of the order in which classes
+    /// are optimised — so after any complete operation it is a function of the
+    /// track's observations, while a partial rollback leaves it out of step.
+    pub seen: BTreeMap<u64, u64>,
     pub env: Arc<Env>,
+}
+
+pub fn list_digest(v: &[(u32, u32)]) -> u64 {
+    let mut h = 0xcbf29ce484222325u64;
+    for (t, q) in v {
+        h = (h ^ *t as u64).wrapping_mul(0x100000001b3);
+        h = (h ^ *q as u64).wrapping_mul(0x100000001b3);
+    }
+    h
+}
+
+pub fn state_digest(seen: &BTreeMap<u64, u64>) -> u64 {
+    let mut h = 0x9e3779b97f4a7c15u64;
+    for (c, d) in seen {
+        h = (h ^ *c).wrapping_mul(0x100000001b3);
+        h = (h ^ *d).wrapping_mul(0x100000001b3);
+    }
+    h
 }
 
 pub fn metric_none_model(env: &Env, ctag: u32, ttag: u32) -> bool {
@@ -254,10 +277,8 @@ impl ObservationMetric<SimAttrs, SimObs> for SimMetric {
                 if metric_none_model(&self.env, c.tag, t.tag) {
                     None
                 } else {
-                    // the attribute metric carries the candidate's metric state so that
-                    // "metric state" is observable through the public API
                     Some((
-                        Some((c.q - t.q).abs() + 1000.0 * self.opt_calls as f32),
+                        Some((c.q - t.q).abs()),
                         Some(pair_code(c.tag, t.tag)),
                     ))
                 }
@@ -268,7 +289,7 @@ impl ObservationMetric<SimAttrs, SimObs> for SimMetric {
 
     fn optimize(
         &mut self,
-        _feature_class: u64,
+        feature_class: u64,
         _merge_history: &[u64],
         attrs: &mut SimAttrs,
         observations: &mut Vec<Observation<SimObs>>,
@@ -276,23 +297,40 @@ impl ObservationMetric<SimAttrs, SimObs> for SimMetric {
         _is_merge: bool,
     ) -> Result<()> {
         if self.env.probe_mode.load(SeqCst) {
-            self.env.last_metric_state.store(self.opt_calls, SeqCst);
+            self.env.last_metric_state.store(state_digest(&self.seen), SeqCst);
             return Ok(());
         }
         let poison = observations
             .iter()
             .any(|o| o.attr().as_ref().map(|a| is_poison_tag(a.tag)).unwrap_or(false));
-        // the metric mutates everything it can reach *before* failing, so a missing
-        // rollback of any of the three parts is visible
-        self.opt_calls += 1;
-        attrs.counter += 1;
+        // On success the only effect is an idempotent one (sort by quality, keep the
+        // best `cap`), so the outcome of an operation does not depend on how often or
+        // for which classes the implementation chooses to optimise.
         observations.sort_by(|a, b| {
             let qa = a.attr().as_ref().map(|x| x.q).unwrap_or(-1.0);
             let qb = b.attr().as_ref().map(|x| x.q).unwrap_or(-1.0);
             qb.partial_cmp(&qa).unwrap()
         });
         observations.truncate(self.env.cap);
-        self.env.tick(Cb::Optimize, poison)?;
+        if let Err(e) = self.env.tick(Cb::Optimize, poison) {
+            // a failing optimise leaves garbage in everything it can reach, so a
+            // missing rollback of attributes, observations or metric state shows
+            self.seen.insert(u64::MAX - 1, 0xdead);
+            self.seen.insert(feature_class, 0xbeef);
+            attrs.counter += 1000;
+            attrs.stamps.push(u32::MAX);
+            observations.reverse();
+            observations.push(Observation::new(Some(SimObs { tag: 4_000_000, q: 9.0 }), None));
+            return Err(e);
+        }
+        let snapshot: Vec<(u32, u32)> = observations
+            .iter()
+            .map(|o| match o.attr().as_ref() {
+                Some(x) => (x.tag, x.q.to_bits()),
+                None => (NO_ATTR_TAG, 0),
+            })
+            .collect();
+        self.seen.insert(feature_class, list_digest(&snapshot));
         Ok(())
     }
 
@@ -343,7 +381,8 @@ pub struct TrackSnap {
     /// class -> [(tag, q bits)]
     pub obs: BTreeMap<u64, Vec<(u32, u32)>>,
     pub history: Vec<u64>,
-    pub opt_calls: u32,
+    /// digest of the metric state (see SimMetric::seen)
+    pub opt_calls: u64,
 }
 
 pub fn snap(t: &STrack, notif: &Notif) -> TrackSnap {
